@@ -191,6 +191,16 @@ pub(super) trait DialectHandler: Any + Debug {
         true
     }
 
+    /// Whether a backslash inside a `'...'` string literal is an escape
+    /// character for this dialect (MySQL, ClickHouse, Snowflake, Redshift).
+    /// If it is, string literals are emitted with their backslashes doubled,
+    /// so that the database reads back the value that was written.
+    /// (BigQuery reads backslash escapes too, and has no `''`; it is left as
+    /// it is here because the book documents its current output.)
+    fn string_literal_backslash_escape(&self) -> bool {
+        false
+    }
+
     /// Whether or not intervals such as `INTERVAL 1 HOUR` require quotes like
     /// `INTERVAL '1 HOUR'` or `INTERVAL '1' HOUR`
     fn interval_quoting_style(&self, _dtf: &DateTimeField) -> IntervalQuotingStyle {
@@ -331,6 +341,10 @@ impl DialectHandler for PostgresDialect {
 }
 
 impl DialectHandler for RedshiftDialect {
+    fn string_literal_backslash_escape(&self) -> bool {
+        true
+    }
+
     fn ident_quoting_style(&self) -> IdentQuotingStyle {
         // Use conditional quoting with dialect-specific keywords
         IdentQuotingStyle::ConditionallyQuoted
@@ -495,6 +509,10 @@ impl DialectHandler for MsSqlDialect {
 }
 
 impl DialectHandler for MySqlDialect {
+    fn string_literal_backslash_escape(&self) -> bool {
+        true
+    }
+
     fn ident_quote(&self) -> char {
         '`'
     }
@@ -542,6 +560,10 @@ impl DialectHandler for MySqlDialect {
 }
 
 impl DialectHandler for ClickHouseDialect {
+    fn string_literal_backslash_escape(&self) -> bool {
+        true
+    }
+
     fn ident_quote(&self) -> char {
         '`'
     }
@@ -612,6 +634,10 @@ impl DialectHandler for BigQueryDialect {
 }
 
 impl DialectHandler for SnowflakeDialect {
+    fn string_literal_backslash_escape(&self) -> bool {
+        true
+    }
+
     fn ident_quoting_style(&self) -> IdentQuotingStyle {
         // Due to snowflake's identifier casing rules, identifiers are always quoted
         // https://docs.snowflake.com/en/sql-reference/identifiers-syntax#label-identifier-casing
